@@ -12,10 +12,11 @@ import GunYu.Model.Sender
 namespace GunYu.Filter
 open GunYu
 
-/-- the parser configuration of a RedisOutput whose `outFilter` is `f` -/
+/-- the parser configuration of a RedisOutput whose `outFilter` is `f` (the
+    key rules are `outFilter` followed by `bisyncNsFilter`) -/
 def pcfgOf (f : KeyFilter) (targetDb : Int := -1) (dbMap : List (Int × Int) := [])
     (startDbId : Int := 0) : Sender.PCfg :=
-  { filterDb := f.filterDb, filterCmd := f.filterCmd, filterCmdKey := f.filterCmdKey,
+  { filterDb := f.filterDb, filterCmd := f.filterCmd, filterCmdKey := plainFilterCmdKey f,
     targetDb := targetDb, dbMap := dbMap, startDbId := startDbId }
 
 /-- outputs of the parser over a command list, one per command, with the
@@ -26,5 +27,9 @@ def parseTrace (c : Sender.PCfg) : Sender.PState → List Sender.Raw → List (S
     match Sender.parseStep c s r with
     | (_, .fail) => [(s, .fail)]
     | (s', o) => (s, o) :: parseTrace c s' rest
+
+/-- the parser state after a command list (outputs dropped) -/
+def stateAfter (c : Sender.PCfg) (s : Sender.PState) (l : List Sender.Raw) : Sender.PState :=
+  l.foldl (fun s r => (Sender.parseStep c s r).1) s
 
 end GunYu.Filter
